@@ -902,10 +902,32 @@ void AbstractDOMParser::endElement( const   XMLElementDecl&
         ((XIncludeUtils::isXIFallbackDOMNode(fCurrentNode) &&
           !XMLString::equals(fCurrentParent->getNamespaceURI(), XIncludeUtils::fgXIIIncludeNamespaceURI)))))
     {
-    	XIncludeUtils xiu((XMLErrorReporter *) this);
-	    // process the XInclude node, then update the fCurrentNode with the new content
-	    if(xiu.parseDOMNodeDoingXInclude(fCurrentNode, fDocument, getScanner()->getEntityHandler()))
-            fCurrentNode = fCurrentParent->getLastChild();
+        //  An xi:include inside the xi:fallback of another xi:include must
+        //  not be processed now: the fallback content is only used if the
+        //  outer inclusion fails, and in that case the outer include
+        //  processes the includes in the content it takes over.
+        bool insideFallback = false;
+        for (DOMNode* anc = fCurrentParent; anc != 0 && anc != fDocument; anc = anc->getParentNode())
+        {
+            if (XIncludeUtils::isXIFallbackDOMNode(anc))
+            {
+                insideFallback = true;
+                break;
+            }
+        }
+
+        if (!insideFallback)
+        {
+            XIncludeUtils xiu((XMLErrorReporter *) this);
+            // process the XInclude node, then update the fCurrentNode with the new content
+            if(xiu.parseDOMNodeDoingXInclude(fCurrentNode, fDocument, getScanner()->getEntityHandler()))
+            {
+                fCurrentNode = fCurrentParent->getLastChild();
+                // the include may have been replaced by nothing at all
+                if (fCurrentNode == 0)
+                    fCurrentNode = fCurrentParent;
+            }
+        }
     }
 }
 
